@@ -785,3 +785,56 @@ func glueASI(r *Rng, st *Stats, n int) {
 		}
 	}
 }
+
+// ---------------------------------------------------------------------------
+// short-circuit / nullish operator compositions (hlib/jsgen_c01.go GenLogical)
+func glueLogical(r *Rng, st *Stats, n int) {
+	type lc struct{ src, out, desc string }
+	var cs []lc
+	var progs []string
+	for k := 0; k < n; k++ {
+		src := GenLogical(r)
+		g := randGlueOpts(r)
+		g.o.Supported = nil
+		if i := strings.Index(g.desc, "supported:"); i >= 0 {
+			g.desc = strings.TrimSuffix(g.desc[:i], ",")
+		}
+		res := api.Transform(src, g.o)
+		out := ""
+		if len(res.Errors) > 0 {
+			out = "\x00ERR:" + res.Errors[0].Text
+		} else {
+			out = string(res.Code)
+		}
+		cs = append(cs, lc{src, out, g.desc})
+		progs = append(progs, src, out)
+	}
+	results, err := RunNodeScripts(progs, 3000)
+	if err != nil {
+		st.Fail("node-oracle-unavailable", err.Error(), nil, nil)
+		return
+	}
+	for k, c := range cs {
+		a, b := results[2*k], results[2*k+1]
+		if oracleNoise(a) || oracleNoise(b) {
+			st.Histogram["oracle-noise"]++
+			continue
+		}
+		if a.Err() == "SyntaxError" && len(a.Log) == 0 {
+			st.Histogram["logical-generator-invalid"]++
+			continue
+		}
+		st.Note("logical", c.src, len(a.Log) > 40)
+		input := map[string]string{"program": c.src, "options": c.desc, "output": c.out}
+		if strings.HasPrefix(c.out, "\x00") {
+			st.Fail("valid-program-rejected", input, c.out[1:], "accepted")
+			continue
+		}
+		if !a.Same(b) && stillDiffers(c.src, c.out) {
+			st.Fail("behaviour-differs", input, b.String(), a.String())
+		}
+		if k < 1 {
+			st.Sample(map[string]string{"program": c.src, "options": c.desc})
+		}
+	}
+}
